@@ -61,7 +61,11 @@ PROFILES = {
     "tiny": ["lpc5506", "lpc5502", "mcxa153"],
     "small": ["lpc5506", "lpc5502", "lpc55s36", "mcxn947", "k32w148", "kw45b41z8", "mimxrt1189", "lpc55s69"],
     "full": None,
+    # the tiny data folder plus a restricted-data folder (an extra device, its own defaults, one overriding schema)
+    # and an add-ons folder (an overlay for one device); processes of this profile import SPSDK themselves
+    "rd": ["lpc5506", "lpc5502", "mcxa153"],
 }
+RD_PROFILES = ("rd",)
 
 HEAL_WORKLOAD = [["quick", 0], ["cfg", 0], ["quick", 1], ["cfg", 1], ["dev", 0]]
 MAX_STEPS = 60000  # harness safety net only (a run that needs more is a harness error, not a verdict)
@@ -196,7 +200,53 @@ def prepare_data(profile: str) -> None:
             os.makedirs(os.path.join(data, "devices", d))
             shutil.copy(os.path.join(src, "devices", d, "database.yaml"), os.path.join(data, "devices", d, "database.yaml"))
         _set_mtimes(data)
+    for extra in ("restricted", "addons"):
+        shutil.rmtree(os.path.join(_W.scratch, extra), ignore_errors=True)
+    if profile in RD_PROFILES:
+        _build_restricted_and_addons(src)
     _W.profile = profile
+
+
+def _spsdk_major_minor() -> str:
+    with open(os.path.join(REPO, "spsdk", "__version__.py")) as f:
+        m = re.search(r"version = '(\d+)\.(\d+)", f.read())
+    if not m:
+        raise HarnessError("cannot read the SPSDK version (spsdk/__version__.py)")
+    return f"{m.group(1)}.{m.group(2)}"
+
+
+def _build_restricted_and_addons(src: str) -> None:
+    rd = os.path.join(_W.scratch, "restricted")
+    os.makedirs(os.path.join(rd, "data", "devices", "rdev1"))
+    os.makedirs(os.path.join(rd, "data", "common"))
+    os.makedirs(os.path.join(rd, "data", "jsonschemas"))
+    with open(os.path.join(rd, "metadata.yaml"), "w") as f:
+        f.write(f'version: "{_spsdk_major_minor()}"\n')
+    with open(os.path.join(src, "devices", "lpc5506", "database.yaml")) as f:
+        dev = f.read()
+    with open(os.path.join(rd, "data", "devices", "rdev1", "database.yaml"), "w") as f:
+        f.write(re.sub(r"^  purpose: .*$", "  purpose: Restricted Series", dev, count=1, flags=re.M))
+    with open(os.path.join(src, "common", "database_defaults.yaml")) as f:
+        dfl = f.read()
+    with open(os.path.join(rd, "data", "common", "database_defaults.yaml"), "w") as f:
+        f.write(re.sub(r"^    size: 0x1000\s*$", "    size: 0x3000", dfl, count=1, flags=re.M))
+    with open(os.path.join(src, "jsonschemas", "sch_tz.yaml")) as f:
+        sch = f.read()
+    with open(os.path.join(rd, "data", "jsonschemas", "sch_tz.yaml"), "w") as f:
+        f.write(re.sub(r"title: .*$", "title: Restricted title", sch, count=1, flags=re.M))
+    ad = os.path.join(_W.scratch, "addons")
+    os.makedirs(os.path.join(ad, "devices", "lpc5506"))
+    m = re.search(r"^info:\n(?:[ \t#].*\n|\n)*", dev, flags=re.M)
+    if not m:
+        raise HarnessError("no info block in lpc5506/database.yaml")
+    with open(os.path.join(ad, "devices", "lpc5506", "database.yaml"), "w") as f:
+        f.write(re.sub(r"^  purpose: .*$", "  purpose: Addon Series", m.group(0), count=1, flags=re.M))
+    _set_mtimes(rd)
+    _set_mtimes(ad)
+
+
+def rd_env() -> dict:
+    return {"SPSDK_RESTRICTED_DATA_FOLDER": os.path.join(_W.scratch, "restricted"), "SPSDK_ADDONS_DATA_FOLDER": os.path.join(_W.scratch, "addons")}
 
 
 # battery keys whose answers depend on each stale target (used to aim workloads at the modified file)
@@ -206,7 +256,13 @@ STALE_KEYS = {
     "schema": ["sch:tz"],
     "schema2": ["sch:general"],
     "schema_deleted": ["sch:tz"],
+    "rd_device": ["dev:rdev1", "qinfo:rdev1", "qgroups"],
+    "rd_defaults": ["devfeat:lpc5506/latest", "defaults:comm_buffer", "dev:lpc5506"],
+    "rd_schema": ["sch:tz"],
+    "rd_schema_deleted": ["sch:tz"],
+    "addon_device": ["dev:lpc5506", "qinfo:lpc5506", "qgroups"],
 }
+RD_STALE = ["rd_device", "rd_defaults", "rd_schema", "rd_schema_deleted", "addon_device", "device", "defaults", "schema2"]
 AUDIT_WORKLOAD = [["key", k] for ks in STALE_KEYS.values() for k in ks] + [["cfg", 0], ["cfg", 1], ["cfg", 2], ["quick", 0], ["quick", 5], ["dev", 3]]
 
 STALE_TARGETS = {
@@ -217,6 +273,12 @@ STALE_TARGETS = {
     # a cached data file that is gone (editable install after switching branches, a restricted-data folder that was
     # unmounted): with the cache disabled the query fails, so it must fail with the cache too
     "schema_deleted": ("jsonschemas/sch_tz.yaml", None, None),
+    # (paths are relative to the standard data folder)
+    "rd_device": ("../restricted/data/devices/rdev1/database.yaml", r"^  purpose: .*$", "  purpose: Stale Series %d"),
+    "rd_defaults": ("../restricted/data/common/database_defaults.yaml", r"^    size: 0x3000\s*$", "    size: 0x%d000"),
+    "rd_schema": ("../restricted/data/jsonschemas/sch_tz.yaml", r"title: .*$", "title: Stale title %d"),
+    "rd_schema_deleted": ("../restricted/data/jsonschemas/sch_tz.yaml", None, None),
+    "addon_device": ("../addons/devices/lpc5506/database.yaml", r"^  purpose: .*$", "  purpose: Stale Series %d"),
 }
 
 
@@ -430,6 +492,9 @@ class Run:
     # -- process control
     def spawn(self, idx: int, spec: dict) -> Proc:
         spec = dict(spec)  # run-time marks (e.g. "_stalled") never leak into the plan
+        rd = self.plan["profile"] in RD_PROFILES
+        if rd:
+            spec["fresh_import"] = True  # the folders are named by environment variables read at import
         p = Proc(idx, spec)
         c2p_r, c2p_w = os.pipe()
         p2c_r, p2c_w = os.pipe()
@@ -442,6 +507,9 @@ class Run:
         if p.fresh:
             msg["spec"]["fresh_import"] = True
             msg["spec"]["env"] = {"SPSDK_CACHE_DISABLED": "1"} if p.flavour == "nocache" else {}
+            if rd:
+                msg["spec"]["env"].update(rd_env())
+                self.probe("process_with_restricted_and_addons_data")
             self.probe("process_imports_spsdk_itself")
         _zy_call(p.zyg, msg, fds=(p2c_r, c2p_w))
         os.close(p2c_r)
@@ -874,8 +942,8 @@ def execute(plan: dict) -> dict:
 
 def families(tier: str):
     if tier == "quick":
-        return [("sched", 220), ("damage", 60), ("stale", 90), ("nocache", 50), ("sweepq", 32), ("sweepd", 12), ("sweepfull", 1)]
-    return [("sched", 12000), ("damage", 3000), ("stale", 3000), ("nocache", 3000), ("sweepq", 700), ("sweepd", 900), ("full", 32), ("sweepfull", 6)]
+        return [("sched", 220), ("damage", 60), ("stale", 90), ("rd", 40), ("nocache", 50), ("sweepq", 32), ("sweepd", 12), ("sweepfull", 1)]
+    return [("sched", 12000), ("damage", 3000), ("stale", 3000), ("rd", 2000), ("nocache", 3000), ("sweepq", 700), ("sweepd", 900), ("full", 32), ("sweepfull", 6)]
 
 
 def _workload(rng: random.Random, n_max: int = 6, need_cfg: bool = False):
@@ -956,7 +1024,7 @@ def gen_plan(family: str, i: int, rng: random.Random, tier: str) -> dict:
     return plan
 
 
-def _gen_plan(family: str, i: int, rng: random.Random, tier: str) -> dict:
+def _gen_plan(family: str, i: int, rng: random.Random, tier: str, targets=None) -> dict:
     if family == "sched":
         profile = "tiny" if rng.random() < 0.75 else "small"
         phases = []
@@ -986,10 +1054,18 @@ def _gen_plan(family: str, i: int, rng: random.Random, tier: str) -> dict:
             ph["procs"][0]["flavour"] = "nocache"
         phases += [ph, {"kind": "heal"}]
         return {"profile": "tiny", "phases": phases}
+    if family == "rd":
+        # restricted-data and add-ons folders in use: the stale scenario aimed at their files, or a plain concurrent start
+        if rng.random() < 0.65:
+            plan = _gen_plan("stale", i, rng, tier, targets=RD_STALE)
+        else:
+            plan = _gen_plan("sched", i, rng, tier)
+        plan["profile"] = "rd"
+        return plan
     if family == "stale":
         # warm cache holding the target's records, the data file changes, then processes that reach the target
         # through different orders of other queries (a stale record must not survive by being merged back)
-        target = rng.choice(sorted(STALE_TARGETS))
+        target = rng.choice(targets or sorted(t_ for t_ in STALE_TARGETS if not t_.startswith(("rd_", "addon_"))))
         tkeys = [["key", k] for k in STALE_KEYS[target]]
 
         def aimed(n_other: int):
